@@ -426,6 +426,83 @@ theorem stray_coins_need_funds (cfg : Feeflow.Cfg) (s : Feeflow.St) (payer a x :
   simp only [Feeflow.step]
   cases ht : Feeflow.target op <;> simp only [Feeflow.pay] <;> rw [if_pos ⟨hu, ha, hx⟩]
 
+/-! ### amounts across the whole u128 range; swaps that fail outside the model; re-entrancy -/
+
+/-- **take_never_falls_back** — for EVERY collector balance a u128 can hold (the harness drives it up to 2^120, with
+    scripted values around 2^64, 3.4e20 = u128::MAX / 10^18, 1e27, 2^100, 2^119) and every stored take rate (< 1),
+    the active take rate yields exactly `⌊rate · B⌋`: `Uint128::checked_mul_floor` works in 256 bits and its result
+    is at most `B`, so the `unwrap_or(0)` fallback of the reply is never taken. -/
+theorem take_never_falls_back (s : St) (tb : Nat) (hrate : s.rate < E18) (htb : tb ≤ U128MAX)
+    (hact : s.active = true ∧ s.rate ≠ 0 ∧ s.daoSet = true) :
+    takeOf s tb = tb * s.rate / E18 ∧ takeOf s tb ≤ tb := by
+  have h1 : tb * s.rate ≤ tb * E18 := Nat.mul_le_mul_left _ (Nat.le_of_lt hrate)
+  have h2 : tb * s.rate / E18 ≤ tb * E18 / E18 := Nat.div_le_div_right h1
+  rw [Nat.mul_div_cancel _ E18_pos] at h2
+  have e : takeOf s tb = tb * s.rate / E18 := by
+    simp only [takeOf]
+    rw [if_pos hact, if_pos (Nat.le_trans h2 htb)]
+  exact ⟨e, by rw [e]; exact h2⟩
+
+/-- **xfail_fails_iff_swaps** — a `NewEpoch` / direct `AggregateFees` whose swap execution failed in the real
+    transaction (`Op.xfail`: spread above the collector's 50 % cap, overflow in a pair — recorded, not modelled)
+    succeeds iff the operation itself succeeds AND sends no swap message; then it is the plain operation. -/
+theorem xfail_fails_iff_swaps (cfg : Feeflow.Cfg) (s s' : Feeflow.St) (code : Nat) (op : Feeflow.Op) :
+    Feeflow.step cfg s (.xfail code op) = .ok s' ↔
+      (Feeflow.step cfg s op = .ok s' ∧ Feeflow.sendsSwaps cfg s op = false) := by
+  constructor
+  · intro h
+    refine ⟨Feeflow.xfail_ok h, ?_⟩
+    simp only [Feeflow.step] at h
+    rw [Feeflow.xfail_ok h] at h
+    simp only at h
+    split at h
+    · unfold Feeflow.failCode at h; split at h <;> cases h
+    · rename_i hn; simpa using hn
+  · intro ⟨h1, h2⟩
+    simp only [Feeflow.step]
+    rw [h1]; simp only
+    rw [if_neg (by rw [h2]; decide)]
+
+/-- **hooked_reply_splits_exactly** — whatever a hostile registered contract nested into the pipeline, the
+    collector's reply at the end of a `NewEpoch` splits exactly what the collector holds of the (current)
+    distribution asset at that moment: DAO cut + amount forwarded = that balance, nothing of it stays behind, the
+    DAO's and the distributor's balances grow by exactly their parts, and `TMP_EPOCH` is consumed. -/
+theorem hooked_reply_splits_exactly (h h' : Feeflow.HS) (e : Feeflow.replyH h = .ok h') :
+    ∃ id start inflow, h.tmp = some (id, start) ∧ h'.tmp = none ∧
+      takeOf h.s.c (h.s.c.bal h.s.d.dist) + Distributor.amt inflow = h.s.c.bal h.s.d.dist ∧
+      h'.s.c.bal h.s.d.dist = 0 ∧
+      h'.s.daoBal h.s.d.dist = h.s.daoBal h.s.d.dist + takeOf h.s.c (h.s.c.bal h.s.d.dist) ∧
+      (∀ a, h'.s.d.bal a = h.s.d.bal a + Distributor.sel h.s.d.dist a (Distributor.amt inflow)) ∧
+      (∀ i, i ≠ h.s.d.dist → h'.s.c.bal i = h.s.c.bal i ∧ h'.s.daoBal i = h.s.daoBal i) := by
+  unfold Feeflow.replyH at e
+  split at e
+  · cases e
+  · rename_i id start htmp
+    split at e
+    · rename_i hle
+      split at e
+      · rename_i d' hr
+        injection e with e; subst e
+        obtain ⟨_, tot, _, hd'⟩ := Distributor.receiveEpoch_spec hr
+        subst hd'
+        refine ⟨id, start, _, htmp, rfl, ?_, by simp [upd], by simp [Collector.add],
+          fun a => Distributor.addAt_apply _ _ _ _, fun i hi => ⟨by simp [upd, hi], by simp [Collector.add, hi]⟩⟩
+        split
+        · rename_i h0; simp only [Distributor.amt]; omega
+        · simp only [Distributor.amt]; omega
+      · cases e
+      · cases e
+    · cases e
+
+/-- **swap_funds_must_still_be_there** — an aggregation pass decides what to swap when its handler runs; if a nested
+    message has meanwhile spent a planned balance (it aggregated it itself), the swap message's funds are missing
+    and the whole transaction fails — a hostile contract cannot make the collector swap an asset twice. -/
+theorem swap_funds_must_still_be_there (hk : Feeflow.Hook) (dist : Nat) (router : Nat → Nat → Nat → Nat) (stage : Nat)
+    (i amt : Nat) (hops : List (Nat × Nat)) (rest : List (Nat × Nat × List (Nat × Nat))) (h : Feeflow.HS)
+    (hlt : h.s.c.bal i < amt) : Feeflow.aggExecH hk dist router stage ((i, amt, hops) :: rest) h = .err := by
+  unfold Feeflow.aggExecH
+  rw [if_pos hlt]
+
 /-! ### factory pages -/
 
 /-- the documented page sizes: `ForwardFees` asks for 30 entries, which both factories grant (maximum
@@ -569,6 +646,50 @@ example : ((Feeflow.step jcfg { jst with rts := fun ask offer => if ask = 2 ∧ 
 example : ((Feeflow.step jcfg { jst with rts := fun ask offer => if ask = 2 ∧ offer = 1 then [(1, 2)] else [] }
       (.coins 1000 2 50 (.coins 1000 3 9 (.newEpoch 1000 (fun _ _ _ => 2400) (fun _ _ => 0))))).toOption.map
     fun s => s.d.epochs.map (·.total)) = some [[(2, 3104)]] := by decide
+
+/-! ### non-vacuity of the re-entrancy model -/
+
+/-- `jst` with a third registered pair uatom/uusdc that is the hostile contract (no fees, ever); its key `(0, 1)` is
+    the first of the pool factory's listing -/
+def jstH : Feeflow.St :=
+  { jst with c := { st0 with pools := st0.pools ++ [{ a := 0, b := 1, reg := true, on := true, pa := 0, pb := 0 }] } }
+
+def r0 : Nat → Nat → Nat → Nat := fun _ _ _ => 0
+def a0 : Nat → Nat → Nat := fun _ _ => 0
+def noAcc : Nat → Nat → Nat → List (Nat × Nat × Nat) := fun _ _ _ => []
+
+/-- the plain `NewEpoch` at genesis forwards 40 + 7 + 1001 + 5000·0 … = 1048 uwhale − 10 % -/
+example : ((Feeflow.step jcfg jstH (.newEpoch 1000 r0 a0)).toOption.map fun s => (s.d.bal 2, s.daoBal 2, s.c.bal 2)) =
+    some (944, 104, 0) := by decide
+
+/-- a `NewEpoch` nested into it from the hostile pair's `CollectProtocolFees` — plainly or caught — makes the whole
+    transaction fail (`nested_new_epoch_refused`): the nested run consumed `TMP_EPOCH` -/
+example : (Feeflow.step jcfg jstH (.reenter (.poolCollect 2) false noAcc (.newEpoch 1000 r0 a0) (.newEpoch 1000 r0 a0))).isOk = false ∧
+    (Feeflow.step jcfg jstH (.reenter (.poolCollect 2) true noAcc (.newEpoch 1000 r0 a0) (.newEpoch 1000 r0 a0))).isOk = false := by
+  decide
+
+/-- a nested `ForwardFees` is refused (the sender is not the distributor): not caught, the transaction fails; caught,
+    it leaves no trace — the result is the plain `NewEpoch`'s, and the hooked run reports `fired = 2` -/
+example : (Feeflow.step jcfg jstH (.reenter (.poolCollect 2) false noAcc (.fwd 5) (.newEpoch 1000 r0 a0))).isOk = false := by
+  decide
+example : ((Feeflow.step jcfg jstH (.reenter (.poolCollect 2) true noAcc (.fwd 5) (.newEpoch 1000 r0 a0))).toOption.map
+      fun s => (s.d.bal 2, s.daoBal 2, s.c.bal 2)) = some (944, 104, 0) := by decide
+example : ((Feeflow.step jcfg jstH (.reenter (.poolCollect 2) true noAcc (.fwd 5) (.newEpoch 1000 r0 a0))).toOption.map
+      fun s => s.d.epochs.map (·.total)) = some [[(2, 944)]] := by decide
+
+example : ((Feeflow.stepH jcfg { trig := .poolCollect 2, caught := true, clears := false, run := (fun s1 => Feeflow.step jcfg s1 (.fwd 5)), hacc := noAcc }
+      jstH (.newEpoch 1000 r0 a0)).map fun r => r.toOption.map fun h => (h.fired, h.armed, h.tmp)) =
+    some (some (2, false, none)) := by decide
+
+/-- a nested direct `CollectFees` (permissionless) goes through (`fired = 1`) and changes nothing of the outcome:
+    the pipeline would have collected the same fees anyway -/
+example : ((Feeflow.stepH jcfg { trig := .poolCollect 2, caught := false, clears := false, run := (fun s1 => Feeflow.step jcfg s1 (.collect 5 (.poolFactory (some 30)))), hacc := noAcc }
+      jstH (.newEpoch 1000 r0 a0)).map fun r => r.toOption.map fun h => (h.fired, h.s.d.bal 2, h.s.daoBal 2, h.s.c.bal 2)) =
+    some (some (1, 944, 104, 0)) := by decide
+
+/-- a `NewEpoch` nested into a directly sent `CollectFees` is simply a `NewEpoch` (no outer `TMP_EPOCH` is involved) -/
+example : ((Feeflow.step jcfg jstH (.reenter (.poolCollect 2) false noAcc (.newEpoch 1000 r0 a0) (.collect 1002 (.poolFactory (some 30))))).toOption.map
+    fun s => (s.d.bal 2, s.daoBal 2, s.c.bal 2, s.d.epochs.map (·.id))) = some (944, 104, 0, [1]) := by decide
 
 /-! ### non-vacuity of the page theorems -/
 
